@@ -59,7 +59,7 @@ CHECKS = {
         engine="mc-common",
         technique="bounded exhaustive input enumeration on the real registration code: all A/B component splices, radius-1/2 deviation balls around honest registrations, the full signing-evolution x announced-evolution rectangle, judged by a reference written with ed25519-dalek / kes-summed-ed25519 / blake2 / blst only",
         text="Every registration of an explicitly generated finite space is executed on the real mithril-common / mithril-stm registration code (ProtocolKeyRegistration::register, the call sequence of the aggregator's MithrilSignerRegistrationVerifier, SignerBuilder::new) and judged by an independent reference: accepted => opcert signed by the cold key, KES signature over the key under the certified KES key within +-1 of the announced evolution and inside [0,64), valid proof of possession, pool id = blake2b-224(cold key) in the stake distribution, key not yet registered, party id derived from the cold key, recorded stake = the distribution's value; plus completeness on honest and signer-produced registrations. The space holds all splices of 10 components of two pools, all single and pairwise deviations from 10 honest bases for an outsider and for a re-signing pool operator, all 64x79 evolution pairs, 11 stake distributions and registration sequences up to length 3.",
-        note="Trusted base: ed25519-dalek non-strict verify, kes-summed-ed25519 at evolutions 0..=63, blake2, blst pairings, own bech32 encoder. Part 1 (mc-common) does not link the aggregator crate: its verifier call sequence is mirrored (stated in the evidence). Part 2 (mc-aggregator, merged into the same evidence file) sends all sequences of <= 2 (thorough: 3) registrations over 19 kinds (honest, another pool's key under own certificate and KES signature, missing / wrong announced evolution, valid registration whose party id field names another / no / an unknown pool) to the real SignerRegisterer of a running aggregator and inspects the verification-key store after every step (key not already registered by another pool, party id from the cold key, stake from the distribution of the derived pool).",
+        note="Trusted base: ed25519-dalek non-strict verify, kes-summed-ed25519 at evolutions 0..=63, blake2, blst pairings, own bech32 encoder. Part 1 (mc-common) does not link the aggregator crate: its verifier call sequence is mirrored (stated in the evidence). Part 2 (mc-aggregator, merged into the same evidence file) sends all sequences of <= 2 (thorough: 3) registrations over its kinds (honest, another pool's key under own certificate and KES signature - also with a proof of possession re-encoded by a cofactor-subgroup point, missing / wrong / extreme ANNOUNCED evolution with the KES signature at the chain-derived one, valid registration whose party id field names another / no / an unknown pool), plus all interleavings of two concurrent registrations on the real leader registerer, to the real SignerRegisterer of a running aggregator and inspects the verification-key store after every step (key not already registered by another pool, party id from the cold key, stake from the distribution of the derived pool).",
         design="§4 C07",
     ),
     "C08": dict(
@@ -82,7 +82,7 @@ CHECKS = {
         level="exploration",
         engine="mc-dbverify",
         technique="bounded exhaustive input enumeration on the real client proving API: every database of 1-4 trios x every range x allow_missing x every single (thorough: pair of) tampering of the restored directory and of the served digest list, plus hostile-mirror combinations, judged against digests and a root the harness computed itself",
-        text="Every database of 1-3 (quick) / 1-4 (thorough) immutable trios, every Full/From/UpTo/Range range, both allow_missing settings, every single structural tampering of the restored directory (each byte flipped, truncations, deletions, every swap and copy between certified files, other spellings of file numbers, files beyond the beacon, extras, a decoy immutable directory) and of the served digest list (renames, drops, duplicates, foreign / swapped digests, every reordering, raw failures), the hostile-mirror combinations of both, and (thorough) all pairs from reduced alphabets are pushed through the public mithril-client API exactly as the CLI calls it (download_and_verify_digests, verify_cardano_database, compute_cardano_database_message, match_message). Accepted => the retained digest sequence equals the signed one, every canonical file of the range is present unless gaps were allowed, and every immutable-named file of the range hashes to the honest digest of that very name; the untampered directory is always accepted. 162k (quick) / 1.7M (thorough) evaluations.",
+        text="Every database of 1-3 (quick) / 1-4 (thorough) immutable trios, every Full/From/UpTo/Range range, both allow_missing settings, every single structural tampering of the restored directory (each byte flipped, truncations, deletions, every swap and copy between certified files, other spellings of file numbers, files beyond the beacon, extras, a decoy immutable directory, a database directory itself named immutable, a file replaced by a symbolic link or a directory) and of the served digest list (renames incl. names with directory components, drops, duplicates, foreign / swapped digests, every reordering, raw failures), the hostile-mirror combinations of both, and (thorough) all pairs from reduced alphabets are pushed through the public mithril-client API exactly as the CLI calls it (download_and_verify_digests, verify_cardano_database, compute_cardano_database_message, match_message). Accepted => the retained digest sequence equals the signed one, every canonical file of the range is present unless gaps were allowed, and every immutable-named file of the range hashes to the honest digest of that very name; the untampered directory is always accepted. 162k (quick) / 1.7M (thorough) evaluations.",
         note="Trusted: SHA-256 (sha2), MKTree collision freedom (C09), the certificate taken as already validated (C03). The harness's independent digests and root are cross-checked at start-up against the real CardanoImmutableDigester. Directory listing order is that of tmpfs. Files of 4-8 bytes, <=4 trios. The archive download/unpack path is C19's subject.",
         design="§4 C10",
     ),
@@ -122,7 +122,7 @@ CHECKS = {
         level="fault_enumeration",
         engine="mc-aggregator",
         technique="exhaustive crash-cut enumeration on the real aggregator: every occurrence of every persistence hook point along a schedule armed once (thorough: 1-deviation schedules and repeated crashes), node dropped and rebuilt on the same SQLite files",
-        text="A recording run lists every occurrence of the eight persistence points (single-signature insert, certificate insert, open-message update, end of create_certificate, artifact compute/store/after-store, buffered hand-over). Each is armed once as a crash: the operation parks there, the whole node is dropped and rebuilt on the same database, then two closing environments run (each starts with two cycles before any signer sends again), each on its own copy of the cut: signers that resubmit every cycle, and honest signers that send each signature until it was acknowledged once (acting on the epoch the node serves); a new immutable and a new epoch follow. Every cut is run in two worlds: MithrilStakeDistribution + CardanoDatabase, and the default configuration (MithrilStakeDistribution only, where a lost round is an epoch gap). After every step: every certificate verifies with its chain, at most one artifact per entity, every artifact references a stored certificate of exactly that entity; the restarted node must not panic by itself while resuming (a panic is handled as a further crash and restart); before the closing environment's epoch change the round of the later immutable beacon of the crash epoch, and at the end the rounds of the next epoch, must be certified with artifacts. Thorough adds the 1-deviation ball of the schedule and second crashes after every first one.",
+        text="A recording run lists every occurrence of the eight persistence points (single-signature insert, certificate insert, open-message update, end of create_certificate, artifact compute/store/after-store, buffered hand-over). Each is armed once as a crash: the operation parks there, the whole node is dropped and rebuilt on the same database, then two closing environments run (each starts with two cycles before any signer sends again), each on its own copy of the cut: signers that resubmit every cycle, and honest signers that send each signature until it was acknowledged once (acting on the epoch the node serves); a new immutable and a new epoch follow. Every cut is run in two worlds: MithrilStakeDistribution + CardanoDatabase, and the default configuration (MithrilStakeDistribution only, where a lost round is an epoch gap), the latter also on a schedule in which every signature of a round arrives before its open message exists (buffered, then handed over). After every step: every certificate verifies with its chain, at most one artifact per entity, every artifact references a stored certificate of exactly that entity; the restarted node must not panic by itself while resuming (a panic is handled as a further crash and restart); before the closing environment's epoch change the round of the later immutable beacon of the crash epoch, and at the end the rounds of the next epoch, must be certified with artifacts. Thorough adds the 1-deviation ball of the schedule and second crashes after every first one.",
         note="A crash is the loss of everything after an await point between persistence statements; torn pages / power loss are not modelled. An entity certified twice after a crash between certificate insert and open-message update is reported as an observation (C15 does not forbid it).",
         design="§4 C15, §5",
     ),
@@ -130,7 +130,7 @@ CHECKS = {
         level="model_checking",
         engine="mc-aggregator",
         technique="exhaustive enumeration of all submission sequences up to length L over (label x signing key x index-list variant x route) on the real aggregator from two prepared states, database inspected after every step",
-        text="From 'open message exists' and 'not yet open (buffered path)', each also with a next-epoch signer set that differs from the current one (two of three parties, fresh keys), all sequences of <= 2 submissions over {party label j} x {signature made by i} x {index variant, incl. a signature made under the next epoch's registration} x {HTTP route, message-queue processor}, and every adversarial submission at every position among the three honest ones (thorough: in every honest order), are replayed on the real aggregator, then the cycles that seal a certificate run. After each step every single_signature row must verify under the key its party registered, no signature may sit under two names, an accepted honest contribution must survive, a mismatching label must be refused by the HTTP route, and the certificate's signer list may name only parties whose own key signed.",
+        text="From 'open message exists' and 'not yet open (buffered path)', each also with a next-epoch signer set that differs from the current one (two of three parties, fresh keys), all sequences of <= 2 submissions over {party label j} x {signature made by i} x {index variant, incl. a signature made under the next epoch's registration and a genuine signature of the party on another message of the epoch} x {HTTP route, message-queue processor}, and every adversarial submission at every position among the three honest ones (thorough: in every honest order), are replayed on the real aggregator, then the cycles that seal a certificate run. Further worlds and routes: three uncertified parties with textually nested ids (1, 10, 11); the message queue as the aggregator wires it (processor <- SignatureConsumerDmq <- real DmqConsumerClientDeduplicator, all sequences of <= 2 publications). After each step every single_signature row must verify under the key its party registered, a recorded contribution must not lose indexes, a contribution answered 'buffered' must be recorded once the open message exists, no signature may sit under two names, an accepted honest contribution must survive, a mismatching label must be refused by the HTTP route, and the certificate's signer list may name only parties whose own key signed.",
         note="Party keys are the deterministic fixtures; 'verifies under the party's key' uses mithril-stm single-signature verification with that party's key and stake given explicitly (C01 checks that function). The announced won-index list is informational.",
         design="§4 C16",
     ),
